@@ -15,7 +15,8 @@ Contract (statement): for two tessellations of the SAME segment / polygon
   match_1d / match_2d(new_g, old_g, tol, scaling):
       'averaged': entries >= 0 and every row sums to 1; 'integrated': entries >= 0 and every column sums to 1 (1e-12).
   requires: both tessellations cover the same domain, cells non-degenerate; nodes of the two tessellations either coincide
-  exactly or are >= 1/48 apart (rational lattices), far outside the tolerance (1e-8) of segments_3d.
+  exactly or are >= 1/48 apart (rational lattices; >= 1/1000 for the fine 2-D triangulations on the lattice k/1000), far outside
+  the tolerance (1e-8) of segments_3d.
 
 Enumeration
   1-D  EXHAUSTIVE: the 7-point lattice {0,1/6,...,1} of [0,1]: every pair of tessellations given by a subset of the 5 interior
@@ -26,6 +27,12 @@ Enumeration
        diagonal, interior nodes displaced by rational offsets (validity: exact positive area), plus Delaunay triangulations of
        seeded rational point clouds; triangulations(), surface_tessellations() (2 and 3 sets, with and without
        return_simplexes) and match_2d() (plane z=0 and the sheared plane z = x + 2y) on the same pairs.
+  1-D  far from the origin (the measure of a segment does not depend on its position): every 2nd (thorough: 3rd) of the same
+       pairs on two segments ~1e6 cell lengths away from the origin (FAR_LINES: integer node coordinates around 2^23..2^25, so
+       that coordinates and lengths are exact), line_tessellation and match_1d 'averaged' / 'integrated'.
+  2-D  fine triangulations and other tolerances (the row / column sums do not depend on `tol`): Delaunay triangulations with 30 /
+       70 interior nodes (60+ / 140+ cells), match_2d with tol = 1e-4 / 1e-6, every pair having an exact overlap of positive area
+       below tol (sweep_2d_fine).  Both families hold on the unchanged tree (quick and thorough, seed 0).
 
 Unchanged tree (installed shapely 2.1.2 / GEOS 3.13.1).  line_tessellation, match_1d: hold on every case.  Violations, kept
 strict and reported to the lead:
@@ -58,6 +65,13 @@ exit 1 with VIOLATION lines whose (obligation, signature) do not occur on the un
   M4  match_2d 'integrated': division by the NEW grid's cell volumes              -> "match_2d: 'integrated' columns sum to one"
   M5  surface_tessellations: `col_new += [k]` -> `[j % num_new]` (wrong mapping)  -> "surface_tessellations: sub-polygon areas mapped to
                                                                                   a cell sum to its area"
+Seeded changes caught only by the two later families (quick tier):
+  S1  segments_3d: end-point-touch test `np.allclose(.., rtol=0, atol=tol)` loses `rtol=0` (numpy's relative 1e-5 applies)
+        -> "line_tessellation: overlaps of a first-/second-tessellation cell sum to its measure", "match_1d: 'averaged' rows /
+           'integrated' columns sum to one", signatures "far from the origin, parallel to the x-axis / general direction"
+  S3  match_2d: the `weights > tol` mask applied before the 'averaged' / 'integrated' scaling
+        -> "match_2d: 'averaged' rows sum to one" / "'integrated' columns sum to one", signature "plane z=0; cell pairs in general
+           position deviate" (fine triangulations with tol 1e-4 / 1e-6)
 """
 from __future__ import annotations
 
@@ -73,7 +87,10 @@ META = {
     "text": "Tier B only: non-negativity and per-cell sum of overlaps (both tessellations), per-cell area sum through the "
             "surface_tessellations mappings, row/column sums of the averaged/integrated matching matrices, for every pair of node subsets "
             "of a 7-point (thorough 9-point) lattice in 1-D (exhaustive) and seeded pairs of structured/perturbed/Delaunay triangulations of "
-            "the unit square in 2-D. The polygon clipping itself is shapely's (trusted library); no deduction.",
+            "the unit square in 2-D; in addition every 2nd (thorough 3rd) 1-D pair on two segments ~1e6 cell lengths away from the origin "
+            "(line_tessellation, match_1d) and match_2d on fine Delaunay triangulations (60+/140+ cells) with tol 1e-4 / 1e-6 and genuine "
+            "overlaps below tol. Not covered: segments / squares much smaller than the absolute tolerance 1e-8 of segments_3d, fine "
+            "triangulations in tilted planes. The polygon clipping itself is shapely's (trusted library); no deduction.",
     "note": "cell measures exact (fractions.Fraction); sums compared at 1e-12 relative to the domain measure; shapely/GEOS trusted",
 }
 
@@ -619,9 +636,10 @@ def sweep_2d(rep, pp, quick):
 def sweep_2d_fine(rep, pp, quick):
     """match_2d on FINE triangulations and with the tolerance values actually passed by callers.  The row / column sums of the
     'averaged' / 'integrated' matrices are stated for every pair of tessellations and do not depend on `tol` (documented as the
-    threshold for dropping overlaps from the unscaled 0/1 matrix only).  Delaunay triangulations of 30 (thorough also 70) seeded
-    interior lattice points k/24 have 60+ (140+) cells, and pairs of them have many genuine overlaps in general position with an
-    area below 1e-4 (1e-6): these must still be counted."""
+    threshold for dropping overlaps from the unscaled 0/1 matrix only).  Delaunay triangulations of 30 / 70 seeded interior
+    lattice points (k/24 with tol 1e-4, k/1000 with tol 1e-6) have 60+ / 140+ cells, and pairs of them have genuine overlaps in
+    general position with an area below the tolerance (checked exactly per pair: that is the non-triviality criterion): these
+    must still be counted.  Only the plane z=0 is used here (the sheared plane adds nothing for this clause)."""
     rng = rep.rng  # drawn after every other family, so that the seeded cases of the other sweeps are unchanged
     # (interior nodes, lattice denominator, pool size, tol)
     plan = [(30, 24, 3, 1e-4), (70, 1000, 2, 1e-6)] if quick else [(30, 24, 6, 1e-4), (30, 1000, 6, 1e-6), (70, 1000, 4, 1e-6), (70, 24, 4, 1e-4)]
@@ -672,7 +690,8 @@ def run(rep):
               "exact cell measures: interval lengths and shoelace areas in fractions.Fraction (props/C33.py)",
               "pp.TensorGrid / pp.TriangleGrid construction and compute_geometry (cell volumes used by match_*; checked under C19)")
     rep.assume("requires: both tessellations cover the same segment / the unit square; rational node coordinates; nodes of the two "
-               "tessellations coincide exactly or are >= 1/48 apart",
+               "tessellations coincide exactly or are >= 1/48 apart (fine 2-D triangulations on the lattice k/1000: >= 1/1000; far 1-D "
+               "segments: integer coordinates, >= 3 apart)",
                "sums compared at 1e-12 relative to the measure of the domain")
     quick = rep.tier == "quick"
     with warnings.catch_warnings():
